@@ -311,6 +311,23 @@ class Interp:
         mod = getattr(f, "__module__", None) or ""
         selfobj = getattr(f, "__self__", None)
         name = getattr(f, "__name__", repr(f))
+        if isinstance(selfobj, list) and name in ("remove", "index", "count", "__contains__") and args and (has_sym(args[0]) or has_sym(selfobj)):
+            hits = []
+            for idx, x in enumerate(selfobj):
+                if x is args[0] or self.truth(self.compare(ast.Eq, x, args[0])):
+                    hits.append(idx)
+                    if name != "count":
+                        break
+            if name == "count":
+                return len(hits)
+            if name == "__contains__":
+                return bool(hits)
+            if not hits:
+                raise PyExc(ValueError, ("list.%s(x): x not in list" % name,))
+            if name == "index":
+                return hits[0]
+            del selfobj[hits[0]]
+            return None
         if isinstance(selfobj, (set, frozenset)) and name in ("add", "discard", "remove", "__contains__", "update", "union", "issubset", "issuperset", "intersection", "difference", "copy") \
                 and (any(needs_key(a) for a in args) or any(type(k) is SymKey for k in selfobj) or any(isinstance(a, (set, frozenset, list)) and any(type(k) is SymKey or needs_key(k) for k in a) for a in args)):
             return self.sym_set_method(selfobj, name, args)
